@@ -18,6 +18,10 @@ func c16(r *Report) {
 	vcPkg := goDid + "/vc"
 	r.Explanation = "Static decision of the structural conditions for discovery lists: (1) the server stores a registration only through verifyRegistration (err nil) and the not-already-present test; verifyRegistration succeeds only via JWT format, an id, audience, non-zero expiration, maximum validity, allowed DID method, the registration/retraction validator and VerifyVP(verifyVCs=true, validAt=nil); the registration validator requires the VP not to outlive its credentials, a definition match and that all (and only) presented credentials matched; a retraction must carry no credentials, a non-empty string retract_jti, and reference an existing entry of the presentation's signer; (2) store ordering: the timestamp increment, the removal of the subject's previous entry and the insert share one SQL transaction (increment first); a poll reads the service row (timestamp) before the presentation rows; a seed change wipes the service's entries and resets the timestamp to 0 with a full-row Save; (3) the client marks an entry validated only after its own verifier passed, checks the seed before adding, and search returns only validated (unless explicitly allowed), unexpired entries."
 	r.NotDecided = []string{"replica convergence over interleavings of registrations and polls (history property)", "PEX matching semantics (C12)", "credential verification (C01)"}
+	gormZeroValue(r, "C16.sql.no-struct-condition", "timestamp 0 / empty service id would drop the condition or the update", 1, map[string]string{
+		"(*discovery.sqlStore).exists":             "reviewed: all three values are non-empty at the three callers (service id of a loaded definition, signer/subject DID string, presentation id / retract_jti checked non-empty before)",
+		"(*discovery.sqlStore).findAndLockService": "reviewed: the service id is the id of a definition loaded at start-up; the row is only locked, a missing condition cannot widen a write",
+	}, "discovery")
 
 	// (1) server
 	reg := p.Func(d, "Module", "Register")
